@@ -5,6 +5,16 @@
  * with whatever interleaving the OS produces and TSan's happens-before
  * analysis reports unsynchronised conflicting accesses independently of the
  * timing observed.
+ *
+ * Free-mode options.  The `Z` section of a scenario is the baton schedule; there is no baton here, so in
+ * this mode it carries options instead: `Z<opt>=<n>,<opt>=<n>`
+ *   alarm=<s>   watchdog of the scenario process in seconds (ivmt.c arms 8 s; a program that has to keep
+ *               a work pool idle for the library's 10 s idle timeout needs more)
+ *   stall=<ms>  every thread created by the LIBRARY (pool threads, iv_thread helpers) sleeps <ms> before each
+ *               pthread_mutex_lock.  This adds no synchronisation (TSan does not order anything by a
+ *               sleep); it widens the window between "code that runs before a lock is taken" and the
+ *               critical section from microseconds to <ms>, so that another thread's critical section
+ *               can be placed inside it by an ordinary timer.  Needs -Wl,--wrap=pthread_mutex_lock.
  */
 #define _GNU_SOURCE
 #include <pthread.h>
@@ -38,11 +48,32 @@ int mt_self(void)
 
 extern int ivmt_trace_off;
 
+static int stall_ms;		/* written before any other thread exists */
+
+static int opt_value(const char *opts, const char *name)
+{
+	const char *p = opts != NULL ? strstr(opts, name) : NULL;
+
+	return p != NULL && p[strlen(name)] == '=' ? atoi(p + strlen(name) + 1) : 0;
+}
+
 void mt_init(void)
 {
 	ivmt_trace_off = 1;
 	my_idx = 0;
 	thr[0] = pthread_self();
+	stall_ms = opt_value(mt_schedule, "stall");
+	if (opt_value(mt_schedule, "alarm") > 0)
+		alarm(opt_value(mt_schedule, "alarm"));
+}
+
+int __real_pthread_mutex_lock(pthread_mutex_t *m);
+
+int __wrap_pthread_mutex_lock(pthread_mutex_t *m)
+{
+	if (stall_ms > 0 && my_idx < 0)
+		usleep(1000 * stall_ms);
+	return __real_pthread_mutex_lock(m);
 }
 
 void mt_yield(void)
